@@ -60,6 +60,8 @@ TEMPLATES = [
     ('/s/{k}', 'status'), ('/em/{k}', 'errmix'),
     # responses without any header of their own, some of them carrying a cookie
     ('/bare/{k}', 'bare'),
+    # ASGI: a server-sent-events stream (a plain response on WSGI)
+    ('/ev/{k}', 'sse'),
 ]
 
 UUIDS = ['11111111-1111-1111-1111-111111111111', '22222222-2222-2222-2222-222222222222',
@@ -101,7 +103,7 @@ def gen_plan(ch, deep=False):
     if scenario == 7:
         # three requests on one route whose answers differ only in something the framework could
         # be tempted to memoise per process / per app (status line by code, handler by class)
-        kind = ['status', 'errmix', 'bare'][ch.draw(3, 'memo_kind')]
+        kind = ['status', 'errmix', 'bare', 'sse'][ch.draw(4, 'memo_kind')]
         ki = [i for i, t in enumerate(TEMPLATES) if t[1] == kind][0]
         if ki not in routes:
             routes.append(ki)
@@ -424,6 +426,17 @@ def build_app(plan, asgi, record, pause=None):
                 async def on_get(self, req, resp, **params):
                     await pause()
                     respond(self._k, self._i, req, resp, params, None)
+                    if self._k == 'sse':
+                        # overlapping event streams of different lengths: each client gets its own events
+                        tag = req.get_header('X-Tag')
+                        n = 1 + sum(ord(c) for c in params.get('k', '')) % 3
+
+                        async def emitter():
+                            for i in range(n):
+                                await pause()
+                                yield falcon.asgi.SSEvent(text='%s event %d of %d' % (tag, i, n))
+                        resp.text = None
+                        resp.sse = emitter()
 
                 async def on_post(self, req, resp, **params):
                     if self._k == 'media':
